@@ -11,6 +11,7 @@ C02 - ETDRK-p steppers realise the Cox-Matthews scheme with exact phi coefficien
 (c) consequence: dt-halving ladders show order p for every family (finite, deterministic).
 """
 
+import contextlib
 import itertools
 import math
 
@@ -69,6 +70,11 @@ def units(tier, seed):
         for D in e.dims:
             us.append({"name": f"stepper/{e.name}/D{D}", "kind": "stepper", "entry": e.name, "D": D, "Ns": b["stepper_grids"][D],
                        "cost": 20 * D * D})
+    for e in catalog.entries():
+        if e.linear:
+            continue
+        D = e.dims[0]
+        us.append({"name": f"passthrough/{e.name}/D{D}", "kind": "passthrough", "entry": e.name, "D": D, "N": {1: 12, 2: 8, 3: 8}[D], "cost": 15 * D * D})
     for fam in LADDERS:
         us.append({"name": f"ladder/{fam}", "kind": "ladder", "fam": fam, "cost": 40})
     return us
@@ -222,6 +228,88 @@ def unit_stepper(u, rec):
         rec.sample({"entry": e.name, "D": D, "N": N, "L": L, "dt": dt, "orders": [0, 1, 2, 3, 4], "states": len(states)})
 
 
+# ----------------------------------------------------------------------------- (b') numerical options of the stepper classes reach the integrator
+
+
+@contextlib.contextmanager
+def injected(cls, extra, force=False):
+    """calls of cls(...) inside the block receive the keyword arguments `extra` (as a user passing them would); restored afterwards"""
+    orig = cls.__init__
+
+    def init(self, *a, **k):
+        for n, v in extra.items():
+            if force or n not in k:
+                k[n] = v
+        return orig(self, *a, **k)
+
+    cls.__init__ = init
+    try:
+        yield
+    finally:
+        cls.__init__ = orig
+
+
+def unit_passthrough(u, rec):
+    """Every semi-linear stepper class accepts dealiasing_fraction, num_circle_points and circle_radius.  Built with non-default values of all three,
+    one step must equal the public ETDRK-p integrator assembled by hand from the documented symbol, the public nonlinear term with that fraction,
+    and those contour parameters (a deliberately coarse contour, M = 6, r = 0.8, so that the default contour gives visibly different numbers)."""
+    import inspect
+
+    import jax.numpy as jnp
+
+    import exponax as ex
+
+    e = catalog.by_name()[u["entry"]]
+    D, N = u["D"], u["N"]
+    rec.dim("entry", e.name)
+    cls = catalog.exported_stepper_classes()[e.name.split("/")[0]]
+    params = inspect.signature(cls.__init__).parameters
+    L, dt = (1.0, 1.0) if e.fixed else (2.5, 0.05)
+    C = e.channels(D)
+    lam, mag, nyq = entry_symbol(e, D, N, L)
+    M2, r2 = 6, 0.8
+    f2 = 0.5 if e.frac > 0.6 else 2 / 3
+    extra = {k: v for k, v in (("dealiasing_fraction", f2), ("num_circle_points", M2), ("circle_radius", r2)) if k in params}
+    rec.check({"num_circle_points", "circle_radius"} <= set(extra), f"C02/passthrough/{e.name}/no_contour_options", "the stepper class does not offer the contour options", have=sorted(extra))
+    nl0 = e.nonlin(ex, jnp, D, N, L, dt)
+    if "dealiasing_fraction" in extra and "dealiasing_fraction" in inspect.signature(type(nl0).__init__).parameters:
+        with injected(type(nl0), {"dealiasing_fraction": f2}, force=True):
+            nl = e.nonlin(ex, jnp, D, N, L, dt)
+    else:
+        nl = nl0
+        extra.pop("dealiasing_fraction", None)
+    smooth = catalog.smooth_states(D, N, C, u["seed"], count=2, amp=e.amp)
+    rich = (np.mod(np.arange(C * N**D) * 7 + (np.arange(C * N**D) // 3) * 5 + u["seed"], 3) - 1.0).reshape((C,) + (N,) * D) * 0.4 * min(1.0, e.amp)
+    ETD = {1: ex.etdrk.ETDRK1, 2: ex.etdrk.ETDRK2, 3: ex.etdrk.ETDRK3, 4: ex.etdrk.ETDRK4}
+    for order in (1, 2, 3, 4):
+        rec.dim("order", order)
+        with injected(cls, extra):
+            st = e.build(ex, jnp, D, N, L, dt, order)
+        st_default = e.build(ex, jnp, D, N, L, dt, order)
+        hand = ETD[order](dt, jnp.asarray(lam), nl, num_circle_points=M2, circle_radius=r2)
+        sens = 0.0
+        for si, sx in enumerate([smooth[1], rich]):
+            uh = jnp.asarray(np.asarray(ex.fft(jnp.asarray(sx), num_spatial_dims=D)))
+            got = np.asarray(st.step_fourier(uh))
+            want = np.asarray(hand.step_fourier(uh))
+            dflt = np.asarray(st_default.step_fourier(uh))
+            if not (np.all(np.isfinite(want)) and np.all(np.isfinite(dflt))):
+                continue
+            scale = float(np.max(np.abs(want))) + float(np.max(np.abs(np.asarray(uh))))
+            err = np.where(nyq[None], 0.0, np.abs(got - want)) / (1e4 * EPS * (1 + mag * dt) * scale)
+            j = np.unravel_index(np.argmax(err), err.shape)
+            rec.count(states=1, transitions=3, traces=1)
+            rec.close(err[j], 1.0, f"C02/passthrough/{e.name}/order{order}",
+                      "a stepper built with non-default dealiasing_fraction / num_circle_points / circle_radius differs from the ETDRK integrator assembled "
+                      "by hand with those values (an option does not reach the integrator or the nonlinear term)",
+                      D=D, N=N, options={k: float(v) for k, v in extra.items()}, state=si, index=list(map(int, j)), got=complex(got[j]), want=complex(want[j]))
+            sens = max(sens, float(np.max(np.where(nyq[None], 0.0, np.abs(dflt - want)) / (1e4 * EPS * (1 + mag * dt) * scale))))
+            rec.outcome_array(got.ravel()[:: max(1, got.size // 16)])
+        # vacuity guard: the default options must give visibly different numbers, otherwise the comparison above could not notice a lost option
+        rec.check(sens > 10.0, f"C02/passthrough/{e.name}/insensitive", "HARNESS: non-default options are indistinguishable from the defaults for this configuration", order=order, sens=sens)
+    rec.sample({"entry": e.name, "D": D, "N": N, "options": {k: float(v) for k, v in extra.items()}})
+
+
 # ----------------------------------------------------------------------------- (c)
 
 LADDERS = {
@@ -272,4 +360,4 @@ def unit_ladder(u, rec):
 
 
 def run_unit(u, rec):
-    {"coef": unit_coef, "stepper": unit_stepper, "ladder": unit_ladder}[u["kind"]](u, rec)
+    {"coef": unit_coef, "stepper": unit_stepper, "passthrough": unit_passthrough, "ladder": unit_ladder}[u["kind"]](u, rec)
